@@ -189,11 +189,15 @@ def check_bitslice(out, facts, impl, term, fn):
         s = strip(stars[0][1])
         ok = isinstance(s, tuple) and s[0] == 'call' and s[1] == 'chunks' and strip(s[3][0]) == ('self',)
         sz = sym.vstr(s[3][1]) if ok else ''
-        ok = ok and sz == '(size_of() Mul 8:usize)'
-        if ok:
-            so = strip(s[3][1])
-            so = strip(so[2])
+        so0 = strip(s[3][1]) if ok else None
+        if ok and sz == '(size_of() Mul 8:usize)':
+            so = strip(so0[2])
             ok = so[4] and so[4][0] == 'T'
+        elif ok and isinstance(so0, tuple) and so0[0] == 'call' and so0[1] == 'bits_of' and 'bitvec::mem' in str(so0[2]):
+            # bitvec's own name for size_of::<T>() * 8
+            ok = bool(so0[4]) and so0[4][0] == 'T'
+        else:
+            ok = False
         if not ok:
             why.append('chunks are not taken from the bit slice itself with size_of::<T>() * 8 bits')
         body = stars[0][2]
